@@ -22,18 +22,41 @@ const (
 type Model struct {
 	Cfg      Cfg
 	Sections []refcar.Block
+
+	// lookup tables over Sections, rebuilt lazily when Sections was changed from outside
+	indexed int
+	byKey   map[string][]int
 }
 
 func sameMultihash(a, b refcar.Cid) bool {
 	return bytes.Equal(a.Multihash(), b.Multihash())
 }
 
-// Match reports whether a stored section answers a lookup of key under cfg.
-func (m *Model) match(stored, key refcar.Cid) bool {
+// keyOf is the identity under which the store de-duplicates and looks up.
+func (m *Model) keyOf(c refcar.Cid) string {
 	if m.Cfg.WholeCID {
-		return bytes.Equal(stored.Raw, key.Raw)
+		return string(c.Raw)
 	}
-	return sameMultihash(stored, key)
+	return string(c.Multihash())
+}
+
+func (m *Model) sync() {
+	if m.byKey != nil && m.indexed == len(m.Sections) {
+		return
+	}
+	if m.byKey == nil || m.indexed > len(m.Sections) {
+		m.byKey = map[string][]int{}
+		m.indexed = 0
+	}
+	for i := m.indexed; i < len(m.Sections); i++ {
+		sc, _, err := refcar.SplitCid(m.Sections[i].Cid)
+		if err != nil {
+			panic(err)
+		}
+		k := m.keyOf(sc)
+		m.byKey[k] = append(m.byKey[k], i)
+	}
+	m.indexed = len(m.Sections)
 }
 
 // Decide returns what Put must do with the block, without changing the model.
@@ -53,11 +76,9 @@ func (m *Model) Decide(b refcar.Block) Outcome {
 		return Rejected
 	}
 	if !m.Cfg.AllowDup {
-		for _, s := range m.Sections {
-			sc, _, _ := refcar.SplitCid(s.Cid)
-			if m.match(sc, c) {
-				return Skipped
-			}
+		m.sync()
+		if len(m.byKey[m.keyOf(c)]) > 0 {
+			return Skipped
 		}
 	}
 	return Stored
@@ -83,11 +104,9 @@ func (m *Model) Lookup(keyRaw []byte) (datas [][]byte, implied bool) {
 	if key.IsIdentity() && !m.Cfg.StoreID {
 		return [][]byte{key.Digest}, true
 	}
-	for _, s := range m.Sections {
-		sc, _, _ := refcar.SplitCid(s.Cid)
-		if m.match(sc, key) {
-			datas = append(datas, s.Data)
-		}
+	m.sync()
+	for _, i := range m.byKey[m.keyOf(key)] {
+		datas = append(datas, m.Sections[i].Data)
 	}
 	return datas, false
 }
